@@ -57,7 +57,17 @@ class Clauses:
 
 
 def compare_loaded(cl, got, exp):
-    """C10 clauses: instance as loaded vs the instance the file denotes."""
+    """C10 clauses: instance as loaded vs the instance the file denotes.  Total: an instance of another shape than the
+    denoted one (other counts, shorter tables) is a verdict, never an exception of the harness."""
+    try:
+        _compare_loaded(cl, got, exp)
+    except (IndexError, KeyError, TypeError) as e:
+        cl.add('C10', 'loaded_instance_has_the_denoted_shape', False,
+               'comparison not possible (%s: %s): loaded counts %s, file denotes %s'
+               % (type(e).__name__, e, (got.get('ns'), got.get('np'), got.get('nl')), (exp.get('ns'), exp.get('np'), exp.get('nl'))))
+
+
+def _compare_loaded(cl, got, exp):
     cl.add('C10', 'counts', (got['ns'], got['np'], got['nl']) == (exp['ns'], exp['np'], exp['nl']),
            'loaded counts %s, file denotes %s' % ((got['ns'], got['np'], got['nl']), (exp['ns'], exp['np'], exp['nl'])))
     cl.add('C10', 'pairs_order_and_ranks', got['prefs'] == exp['prefs'] and got['ranks'] == exp['ranks'],
@@ -74,7 +84,8 @@ def compare_loaded(cl, got, exp):
         ok = True
         for l in range(exp['nl']):
             for s in range(exp['ns']):
-                if exp['lrank'][l][s] != got['lrank'][l][s]:
+                # (total: an instance loaded with other counts than the file denotes has a table of another shape)
+                if l >= len(got['lrank']) or s >= len(got['lrank'][l]) or exp['lrank'][l][s] != got['lrank'][l][s]:
                     ok = False
         cl.add('C10', 'lecturer_ranks', ok, 'loaded lrank %s, denoted %s' % (got['lrank'], exp['lrank']))
     else:
